@@ -626,6 +626,20 @@ def opSerial : Rd String := do
     | .ok => "ok" | .err => "err" | .skipped => "skipped" | .cancelled => "cancelled"
   pure (st.results.foldl (fun acc r => acc ++ " " ++ show1 r) s!"exit={if exitOk st then 0 else 1}")
 
+/-- the serial driver under Ctrl-C: during file `k` (that file is cancelled), or between two files
+    (after the first `k` are through) -/
+def opSerialSig : Rd String := do
+  let failFast ← bool
+  let grounds ← listOf readGround
+  let k ← nat
+  let during ← bool
+  let st :=
+    if during then runSerial failFast (grounds.zipIdx.map (fun p => (p.1, p.2 == k)))
+    else runSerialSigBetween failFast grounds k
+  let show1 : FileResult → String
+    | .ok => "ok" | .err => "err" | .skipped => "skipped" | .cancelled => "cancelled"
+  pure (st.results.foldl (fun acc r => acc ++ " " ++ show1 r) s!"exit={if exitOk st then 0 else 1}")
+
 /-! ### external-engine driver -/
 
 structure FrStep where
@@ -715,6 +729,7 @@ def dispatchOp (line : String) : String :=
       | "libmon" => opLibMon.run rest
       | "libname" => (do let p ← str; let k ← nat; pure ("name " ++ hx (libDbName p k)) : Rd String).run rest
       | "serial" => opSerial.run rest
+      | "serialsig" => opSerialSig.run rest
       | _ => .error s!"unknown op {op}"
     match r with
     | .ok (out, []) => out
